@@ -37,10 +37,16 @@ def generate(rng, tier):
         s.add("new U"); s.add("newcache CI"); s.add("newcache CM")
         first_fp = fps[0] if fps else 0
         regs = s.regs_x86(0x999, base, first_fp) if arch == "x86" else s.regs_a64(M64, 0x998, base, first_fp)
+        # (aarch64: also with a pointer-authentication mask narrower than the pc given - the first frame is the pc AS
+        # GIVEN, nothing is stripped from it; seeded change C17-11)
+        variants = [(regs, (0x999, 0, 1, M64))]
+        if arch == "a64":
+            variants.append((s.regs_a64((1 << 48) - 1, 0x998, base, first_fp), (0xab00000000000999, M64, 1 << 63, 0x999)))
         for extra in (0, 1, 3):
+          for regs, pcs in variants:
             for via in (0, 1):
                 # the given instruction pointer is yielded first whatever it is: an ordinary address, 0, 1, 2^64-1
-                for pc0 in (0x999, 0, 1, M64):
+                for pc0 in pcs:
                     s.add("newcache CI"); s.add("newcache CM")
                     n = depth + 2 + extra
                     li = s.add("iter U CI %s %s S %d %d" % (hx(pc0), regs, n, via), tag="%s:fpchain:%d:%d:%d:%s" % (arch, depth, extra, via, hx(pc0)))
